@@ -47,7 +47,12 @@ where
             for (medoid, cluster_data) in std::mem::take(current_clusters).into_iter() {
                 // not enough data for clustering, simply propagate it to the next tier
                 if cluster_data.len() < K_PER_TIER {
-                    current_tier_clusters.insert(medoid.clone().expect("should be set"), cluster_data.clone());
+                    // NOTE: medoid is not yet known when whole input is smaller than the tier size
+                    let Some(medoid) = medoid.clone().or_else(|| cluster_data.first().cloned()) else {
+                        continue;
+                    };
+                    current_tier_clusters.insert(medoid.clone(), cluster_data.clone());
+                    let medoid = Some(medoid);
                     next_tier_clusters.push((medoid, cluster_data));
                     continue;
                 } else {
